@@ -177,6 +177,43 @@ package keeper
 //@     && resp.Inflation == infl(cur($minterParams, $minterState.SequenceId), startOf($minterParams, $minterState.SequenceId), $blockTime, $supply[$minterParams.MintDenom])
 //@   ensures req == nil || !hasMinter($minterParams, $minterState.SequenceId) ==> err != nil
 //@   prop C19
+//@
+//@ // ---- C13: only governance changes the parameters; what is stored was validated and contains the current period ----
+//@ spec func mpKey() str = global("types.ParamsKey")
+//@ // the stored parameters (decoded abstractly) satisfy validation and contain the minter's current period
+//@ pred storedMinterParamsOK(k) = $kvHas[storeOf(k.storeKey)][mpKey()]
+//@   && minterParamsValid(decSnap("types.Params", $kvVal[storeOf(k.storeKey)][mpKey()]))
+//@   && paramsContainSeq(decSnap("types.Params", $kvVal[storeOf(k.storeKey)][mpKey()]), $minterState.SequenceId)
+//@ func (k Keeper) SetParams(ctx, p) (err)
+//@   modifies $kvHas, $kvVal, elems(p.Minters)
+//@   ensures err != nil ==> kvUnchanged()
+//@   ensures err == nil ==> minterParamsValid(snap(p)) && $kvHas[storeOf(k.storeKey)][mpKey()] && $kvVal[storeOf(k.storeKey)][mpKey()] == enc(p)
+//@   ensures forall id :: {paramsContainSeq(snap(p), id)} paramsContainSeq(snap(p), id) == old(paramsContainSeq(snap(p), id))
+//@   ensures kvOnlyChanged(storeOf(k.storeKey), mpKey())
+//@   prop C13
+//@ func (k Keeper) UpdateParams(ctx, authority, params) (err)
+//@   modifies $kvHas, $kvVal, elems(params.Minters)
+//@   ensures authority != k.authority ==> err != nil
+//@   ensures err != nil ==> kvUnchanged()
+//@   ensures err == nil ==> authority == k.authority && storedMinterParamsOK(k) && $kvVal[storeOf(k.storeKey)][mpKey()] == enc(params)
+//@   ensures kvOnlyChanged(storeOf(k.storeKey), mpKey())
+//@   prop C13
+//@ func (k msgServer) UpdateMintersParams(goCtx, msg) (resp, err)
+//@   requires msg != nil
+//@   modifies $kvHas, $kvVal, elems(msg.Minters)
+//@   ensures msg.Authority != k.authority ==> err != nil
+//@   ensures err != nil ==> kvUnchanged()
+//@   ensures err == nil ==> msg.Authority == k.authority && storedMinterParamsOK(k.Keeper)
+//@   ensures kvOnlyChanged(storeOf(k.storeKey), mpKey())
+//@   prop C13
+//@ func (k msgServer) UpdateParams(goCtx, msg) (resp, err)
+//@   requires msg != nil
+//@   modifies $kvHas, $kvVal, elems(msg.Minters)
+//@   ensures msg.Authority != k.authority ==> err != nil
+//@   ensures err != nil ==> kvUnchanged()
+//@   ensures err == nil ==> msg.Authority == k.authority && storedMinterParamsOK(k.Keeper)
+//@   ensures kvOnlyChanged(storeOf(k.storeKey), mpKey())
+//@   prop C13
 
 //@ // ---- declared effects (checked per call instruction by the effect checker; anything not listed is effect-free) ----
 //@ effects Keeper.Mint bank.mint bank.send
